@@ -16,8 +16,9 @@ func init() {
 		Explain: "Decided clauses: R1 in both request entry points routing and flash parsing are unreachable for an unknown method, the guard itself does not evaluate an accessor that indexes with the −1 sentinel, and every App.method(methodInt) call is guarded against −1; " +
 			"R2 no value a handler passes to a response helper reaches a fasthttp response-header setter that does not strip CR/LF, except through a cleaner (percent-quoting, strconv, MIME lookup, a structurally recognised CR/LF sanitiser); the setter table is re-derived from fasthttp's own bodies; " +
 			"R3 no allocation in code reachable from flash parsing is sized by a decoded length without a dominating bound; R4 serverErrorHandler maps every fasthttp error class to a 4xx/5xx *Error with a 400 default; " +
-			"R5 (thorough) explicit panics and unchecked type assertions reachable from the request entry points are limited to a reviewed allow-list. " +
-			"Not decided (honest not-applicable for these clauses): index/slice bounds inside the hand-written header parsers, loop termination, proportional allocation in general, strict-parser validity of the whole response.",
+			"R5 (thorough) explicit panics and unchecked type assertions reachable from the request entry points are limited to a reviewed allow-list; " +
+			"R6 where a function bounds an offset access x[v+c…] by HasPrefix(x[v:], literal) or a len comparison, the access is reachable only through the bounding edge (an access evaluated ahead of its own guard is an out-of-range panic for an input that ends early). " +
+			"Not decided (honest not-applicable for these clauses): index/slice bounds inside the hand-written header parsers beyond R6 (accesses for which the function states no bound are counted, not judged), loop termination, proportional allocation in general, strict-parser validity of the whole response.",
 		Assume: []string{"fasthttp 1.60: only ResponseHeader.Set sanitises values (re-derived each run from its SSA bodies)", "user handlers pass arbitrary strings"},
 		Run:    runC07,
 	})
@@ -379,6 +380,8 @@ func runC07(r *Run) {
 		sort.Strings(codes)
 		r.check(okAll && has400 && len(phi.Edges) >= 6, "serverErrorHandler:mapping", r.pos(eh[0].Instr), "every branch yields a framework *Error; default is 400: "+strings.Join(codes, ","), "a fasthttp error class is passed on unmapped, or the default is not 400: "+strings.Join(codes, ","))
 	})
+
+	r.rule("R6", "offset accesses are not evaluated ahead of the guard that bounds them (contradiction rule over every function of the module)", func() { offsetGuardRule(r) })
 
 	if r.Tier == "thorough" {
 		r.rule("R5", "reachable explicit panics / unchecked assertions from the request entry points are allow-listed (call graph)", func() {
